@@ -9,6 +9,11 @@ import (
 
 // TODO: set maximum recursion here
 func DeepCast(val Value, typ ast.Type, span errors.Span, allowCasts bool) (*Value, *Interrupt) {
+	// Casting to `any` does not validate anything (same as the VM's cast).
+	if typ.Kind() == ast.AnyTypeKind {
+		return &val, nil
+	}
+
 	// TODO: is this OK?
 	if typ.Kind() == ast.OptionTypeKind {
 		if val.Kind() == OptionValueKind {
@@ -204,6 +209,7 @@ func DeepCast(val Value, typ ast.Type, span errors.Span, allowCasts bool) (*Valu
 				span,
 			)
 		}
+		return &val, nil
 	case OptionValueKind:
 		if typ.Kind() != ast.OptionTypeKind {
 			return nil, NewRuntimeErr(
